@@ -1076,6 +1076,11 @@ def symbolic_listcomp(interp, e, fr, it):
     ctx = interp.ctx
     if isinstance(it, Ref) and it.kind == "ext" and hasattr(ctx.st(it)["model"], "listcomp"):
         return ctx.st(it)["model"].listcomp(interp, e, fr, it)
+    h = getattr(ctx.prog, "listcomp_model", None)
+    if h is not None:
+        r = h(interp, e, fr, it)      # sidecar summary of a comprehension over a symbolic sequence (e.g. a per-character test)
+        if r is not NotImplemented:
+            return r
     g = e.generators[0]
     if isinstance(it, Ref) and it.kind == "wseq" and not g.ifs and isinstance(g.target, ast.Name) and isinstance(e.elt, ast.Name) \
             and e.elt.id == g.target.id:
@@ -1389,6 +1394,9 @@ def call_foreign(interp, f, args, kwargs, fr, site):
         if o is pyb.next and isinstance(args[0], SV) and args[0].ty.startswith("u:"):
             return interp.call_value(value_getattr(ctx, args[0], "__next__"), [], {}, fr, site)
         raise Undecided("builtin %s" % o.__name__)
+    if (o is pyb.any or o is pyb.all) and isinstance(args[0], Ref) and args[0].kind == "ext" and \
+            hasattr(ctx.st(args[0])["model"], "all" if o is pyb.all else "any"):
+        return getattr(ctx.st(args[0])["model"], "all" if o is pyb.all else "any")(ctx, args[0])
     if o is pyb.any or o is pyb.all:
         items = concrete_iter(ctx, args[0], must=True)
         cs = [truth(ctx, x) for x in items]
